@@ -7,9 +7,14 @@
 // preimage equals the asked one (ASCII-case-insensitive on the name, nothing
 // broader) and the client is inside the answer's ECS audience.
 //
-// Workload: (i) forged collisions on every route (forged.go), (ii) key
-// agreement between the wire and presentation key functions (keys.go),
-// (iii) interleaved audiences (audience.go).
+// Workload: (i) forged collisions on every route (forged.go), (i-b) whole-label
+// ancestry of zone failures / subtree cuts / exact failures for names with
+// escaped and non-printable octets, on every route, the Store-level lookups,
+// reset and purge (escapes.go), (ii) key agreement between the wire and
+// presentation key functions (keys.go), (iii) interleaved audiences
+// (audience.go) under upstream OPT records of generated shape — other options
+// before / after the client-subnet option, several subnet options
+// (universe.go optShape).
 package main
 
 import (
@@ -63,6 +68,27 @@ func runForgedAll(r *vlib.Run) {
 		}
 		e.close()
 	}
+}
+
+// runEscapes: whole-label ancestry of failure / cut state for names with
+// escaped and non-printable octets (escapes.go). Zone failures and exact
+// failures run with DNSSEC on (a zone-kind hit materializes on the wire entry)
+// and off (it is served from bytes); the cut index only exists with DNSSEC on.
+func runEscapes(r *vlib.Run) {
+	const size = 300
+	run := func(mode string, n int, variants []cfgVariant) {
+		for start, b := 0, 0; start < n; start, b = start+size, b+1 {
+			e := newEnv(r, variants[b%len(variants)])
+			for i := start; i < start+size && i < n; i++ {
+				e.runEsc(genEsc(r.RandN("esc-"+mode, i), i, mode, e.v))
+			}
+			e.close()
+			r.Progress("esc %s %d", mode, start)
+		}
+	}
+	run("zone-failure", r.N(900, 40000), []cfgVariant{variantMain, variantPlain, variantMain})
+	run("cut", r.N(600, 30000), []cfgVariant{variantMain})
+	run("question-failure", r.N(600, 30000), []cfgVariant{variantMain, variantPlain})
 }
 
 func runAudiences(r *vlib.Run) {
@@ -133,6 +159,11 @@ func replay(r *vlib.Run, raw json.RawMessage) {
 		if un(&c) {
 			e.runCut(&c)
 		}
+	case "esc":
+		var c escCase
+		if un(&c) {
+			e.runEsc(&c)
+		}
 	case "audience":
 		var c audCase
 		if un(&c) {
@@ -152,6 +183,7 @@ func main() {
 	}
 	runKeys(r)
 	runForgedAll(r)
+	runEscapes(r)
 	runAudiences(r)
 
 	// every route exercised with a forged entry confirmed in place …
@@ -182,6 +214,56 @@ func main() {
 		"cut-" + rWire, "cut-" + rMsg, "cut-" + rStoreGet, "wire-cut-bytes"} {
 		r.Require("legit_hit/"+route, 100)
 	}
+	// whole-label ancestry of failure / cut state for names with escaped octets
+	for _, mode := range []string{"zone-failure", "cut", "question-failure"} {
+		for _, route := range []string{rMsg, rWire, rEngine, rWireTCP, rStoreGet} {
+			r.Require("esc_probe/"+mode+"/"+route, 60)
+			r.Require("legit_hit/esc-"+mode+"-"+route, 60)
+		}
+		pres, wire := rStoreFailPres, rStoreFailWire
+		if mode == "cut" {
+			pres, wire = rStoreCutPres, rStoreCutWire
+		}
+		for _, route := range []string{pres, wire} {
+			r.Require("esc_probe/"+mode+"/"+route, 400)
+			r.Require("legit_hit/esc-"+mode+"-"+route, 300)
+		}
+	}
+	for _, shape := range escShapes {
+		r.Require("esc_probe_shape/"+shape, 150)
+	}
+	r.Require("esc_probe_alt_spelling", 150)
+	r.Require("esc_probe_names_with_escapes", 1000)
+	r.Require("esc_outside_behaved_as_miss", 6000)
+	r.Require("legit_hit/esc-zone-failure-wire-bytes", 100)
+	r.Require("legit_hit/esc-cut-wire-bytes", 100)
+	r.Require("legit_hit/esc-zone-failure-after-reset", 500)
+	r.Require("legit_hit/esc-cut-after-reset", 300)
+	r.Require("legit_hit/esc-question-failure-recorded-on-the-other-path", 100)
+	r.Require("esc_question_failure_wire_and_presentation_agree", 400)
+	r.Require("esc_reset_checks/zone-failure-answer", 500)
+	r.Require("esc_reset_checks/zone-failure-purge", 200)
+	r.Require("esc_reset_checks/cut-purge", 150)
+	r.Require("esc_reset_checks/question-failure-answer", 250)
+	r.Require("esc_reset_checks/question-failure-purge", 150)
+	r.Require("esc_state_intact_after_reset", 1500)
+	r.Require("forged_probe_sub/failure-label-cut", 60)
+	// the upstream OPT's shape: other options around the subnet option(s)
+	r.Require("upstream_opt/plain", 2000)
+	r.Require("upstream_opt/scoped_subnet_after_other_v4", 800)
+	r.Require("upstream_opt/scoped_subnet_after_other_v6", 400)
+	r.Require("upstream_opt/scoped_subnet_before_other_v4", 600)
+	r.Require("upstream_opt/scoped_subnet_before_other_v6", 300)
+	r.Require("upstream_opt/global_subnet_after_other_v4", 50)
+	r.Require("upstream_opt/global_subnet_after_other_v6", 20)
+	r.Require("upstream_opt/multi_subnet_same_scope", 150)
+	r.Require("upstream_opt/multi_subnet_differing_scopes", 150)
+	for _, k := range []string{"cookie", "nsid", "ede", "padding", "expire", "local", "unassigned"} {
+		r.Require("upstream_opt/option_"+k, 2000)
+	}
+	r.Require("audience_scoped_hits_upstream_other_option_before_subnet", 150)
+	r.Require("audience_scoped_hits_upstream_other_option_after_subnet", 120)
+	r.Require("audience_scoped_hits_upstream_several_subnet_options", 25)
 	r.Require("key_names_checked", 90000)
 	r.Require("key_prefix_variants_checked", 30000)
 	r.Require("key_ascii_case_variants", 8000)
@@ -206,6 +288,9 @@ func main() {
 	r.Assume("ReplaceIfCurrent's contract is that the replacement takes over the slot's CD partition and ECS scope: forged writes through it differ from the slot in name/type/class only")
 	r.Assume("audience of an answer = the forwarded ECS source truncated to min(SCOPE, SOURCE) bits (RFC 7871 §7.3.1); a client is inside it iff its own policy-clamped source prefix is at least that long and lies within it; [ecs] min_scope equals the forwarding ceiling (the default), so the cardinality cap never widens a scope")
 	r.Assume("a cached-failure reply carries no marker: it is attributed to 'some failure the stub really returned for that name/type/class/CD under an audience covering the client'; a subtree-cut reply is attributed through the marker in its SOA")
-	r.Finish(fmt.Sprintf("forged (pair, route) probes: an entry admitted for A filed under the key of B (A,B differing in exactly one of name beyond ASCII case / type / class / CD / ECS audience) then B asked through %s, %s, %s, %s, %s, %s, alias chase with a forged target, failure and subtree-cut lookups (wire and decoded), and after Purge; each followed by a same-preimage control that must be served from cache by that route; key agreement over generated wire names; audience histories with interleaved lookups, refreshes, purges and clock advances. A case is distinct non-trivial by (config, dimension, sub-kind, writer, route, purge) when the forged entry was confirmed in place and B was answered from upstream, and by (scope, CD, route) for audience hits/misses",
+	r.Assume("escaped names: a name is below a zone iff the zone's labels are its trailing labels, compared as octets with A-Z folded (`x\\.example.com.` is a child of `com.`, not of `example.com.`); an alternative presentation spelling of the same octets (`\\046` for `\\.`), which only a decoded-path caller can send, is judged for wrong hits only — missing state recorded under the library's spelling is not a use of a cached response")
+	r.Assume("an upstream response with several client-subnet options (RFC 7871 allows one) is scoped to the widest audience any of them names: the statement does not say which option counts; all other OPT shapes (other options before / after the subnet option, one subnet option) are judged exactly")
+	r.Assume("a useful answer for, or a purge of, a name that a recorded zone failure / subtree cut / exact failure does not cover must leave that state in place (signature prefix reset/): removing it would make the routes disagree about what the state covers")
+	r.Finish(fmt.Sprintf("forged (pair, route) probes: an entry admitted for A filed under the key of B (A,B differing in exactly one of name beyond ASCII case / type / class / CD / ECS audience) then B asked through %s, %s, %s, %s, %s, %s, alias chase with a forged target, failure and subtree-cut lookups (wire and decoded), and after Purge; each followed by a same-preimage control that must be served from cache by that route; key agreement over generated wire names; whole-label ancestry probes (zone failure, subtree cut, exact failure recorded through the real recording API for names with escaped / non-printable octets; the look-alike name that is not below it asked through every route and the Store-level lookups in wire and presentation form, then reset and purged); audience histories with interleaved lookups, refreshes, purges and clock advances under upstream OPT records of generated shape. A case is distinct non-trivial by (config, dimension, sub-kind, writer, route, purge) when the forged entry was confirmed in place and B was answered from upstream, and by (scope, CD, route) for audience hits/misses",
 		rMsg, rWire, rWireTCP, rEngine, rStoreGet, rStoreLookup))
 }
